@@ -123,7 +123,9 @@ def sensitivity(argv):
                 continue
             tests = "skipped"
             if with_tests:
-                env = common.child_env({"PYTHONPATH": os.path.join(d, "src")})
+                home = os.path.join(d, "home")
+                os.makedirs(home, exist_ok=True)
+                env = common.child_env({"PYTHONPATH": os.path.join(d, "src"), "HOME": home, "XDG_CACHE_HOME": home, "TMPDIR": home})
                 tp = subprocess.run([PY, "-m", "pytest", "-q", "-x", "-p", "no:cacheprovider", "tests"], cwd=d, env=env,
                                     capture_output=True, text=True, timeout=1800)
                 tests = "pass" if tp.returncode == 0 else "FAIL"
